@@ -107,6 +107,18 @@ func runC01(c *core.Ctx) {
 		}
 		idx++
 	}
+	// bounds at and beyond the edge of the signed 64-bit range (legal values of the unsigned count keywords)
+	for _, big := range []float64{9223372036854775808.0, 9223372036854777856.0, 18446744073709549568.0, 4294967296.0, 2147483648.0} {
+		for _, kw := range []string{"maxLength", "minLength", "maxItems", "minItems", "maxProperties", "minProperties"} {
+			for _, s := range []gen.S{{kw: big}, {"type": "object", "properties": gen.S{"a": gen.S{kw: big}}}, {"allOf": gen.Arr(gen.S{kw: big})}} {
+				if c.Mine(idx) {
+					c.Cover("workload", "count bounds near 2^63 and 2^64")
+					c01One(c, s, universe, nil, false)
+				}
+				idx++
+			}
+		}
+	}
 	c01CustomCompiler(c)
 	if c.Shard == 0 {
 		c.CoverN("workload", "systematic_schemas", len(schemas))
